@@ -367,12 +367,24 @@ def cmd_check(prop, tier, seed, runs_override=None):
         budget = 60 if tier == "quick" else 240
         mini, ok, tries = shrink(plan, prop, rule, budget, os.path.join(runner.work, "shrink-" + rule))
         mini["expect"] = prop + "/" + rule
-        # final confirmation in a fresh process
-        res2 = run_child(dict(mini, replay=True), os.path.join(runner.work, "confirm-" + rule), keeplog=True)
-        confirmed = any(x["rule"] == rule for x in relevant_violations(res2, prop))
+        # final confirmation in fresh processes. A replay normally reproduces at the first attempt; a
+        # violation that hinges on randomness inside the repo (Go's select picks at random among ready
+        # cases) reproduces only in a fraction of the attempts, which is recorded in the replay file.
+        attempts, hits, res2 = 0, 0, None
+        for attempts in range(1, 9):
+            rr = run_child(dict(mini, replay=True), os.path.join(runner.work, "confirm-" + rule), keeplog=True)
+            if any(x["rule"] == rule for x in relevant_violations(rr, prop)):
+                hits += 1
+                res2 = rr
+                if attempts == 1:
+                    break
+        if res2 is None:
+            res2 = rr
+        confirmed = hits > 0
+        mini["replay_attempts"] = 1 if attempts == 1 else 12
         path = os.path.join(VERIF, "replays", "%s-%s-%d.json" % (prop, rule, (plan or {}).get("seed", 0)))
         with open(path, "w") as f:
-            json.dump({"plan": mini, "violation": v, "confirmed_in_fresh_process": confirmed, "shrink_runs": tries,
+            json.dump({"plan": mini, "violation": v, "confirmed_in_fresh_process": confirmed, "reproduced": "%d/%d" % (hits, attempts), "shrink_runs": tries,
                        "log_tail": (res2.get("log") or [])[-80:], "detail_after_shrink": [x for x in relevant_violations(res2, prop)]}, f, indent=1)
         if not confirmed:
             log("HARNESS: violation %s/%s of seed %s did not reproduce in a fresh process (nondeterminism) -> exit 2" % (prop, rule, (plan or {}).get("seed")))
@@ -426,10 +438,13 @@ def cmd_replay(prop, path):
     plan = doc.get("plan", doc)
     plan["replay"] = True
     wd = os.path.join(WORK, "replay-%s" % prop)
-    shutil.rmtree(wd, ignore_errors=True)
-    res = run_child(plan, wd, keeplog=True)
-    vs = relevant_violations(res, prop)
     expect = plan.get("expect", "")
+    for attempt in range(int(plan.get("replay_attempts", 1))):
+        shutil.rmtree(wd, ignore_errors=True)
+        res = run_child(plan, wd, keeplog=True)
+        vs = relevant_violations(res, prop)
+        if [v for v in vs if not expect or sig_of(v) == expect]:
+            break
     for l in (res.get("log") or [])[-int(os.environ.get("VERIF_LOGTAIL", "60")):]:
         log("  " + l)
     if os.environ.get("VERIF_DUMP"):
